@@ -528,9 +528,9 @@ impl<'a> HnswPageRef<'a> {
         }
 
         let offset = self.slot_offset(slot_index);
-        Some(SlotEntry::decode(
-            &self.data[offset..offset + HNSW_SLOT_SIZE],
-        ))
+        self.data
+            .get(offset..offset + HNSW_SLOT_SIZE)
+            .map(SlotEntry::decode)
     }
 
     pub fn read_node_data(&self, slot_index: u16) -> Result<&[u8]> {
@@ -541,7 +541,9 @@ impl<'a> HnswPageRef<'a> {
         ensure!(slot.is_active(), "slot is not active");
 
         let offset = slot.offset as usize;
-        Ok(&self.data[offset..offset + slot.size as usize])
+        self.data
+            .get(offset..offset + slot.size as usize)
+            .ok_or_else(|| eyre::eyre!("slot data range exceeds page bounds"))
     }
 }
 
@@ -614,9 +616,9 @@ impl<'a> HnswPage<'a> {
         }
 
         let offset = self.slot_offset(slot_index);
-        Some(SlotEntry::decode(
-            &self.data[offset..offset + HNSW_SLOT_SIZE],
-        ))
+        self.data
+            .get(offset..offset + HNSW_SLOT_SIZE)
+            .map(SlotEntry::decode)
     }
 
     pub fn can_fit(&self, data_size: usize) -> bool {
@@ -674,7 +676,9 @@ impl<'a> HnswPage<'a> {
         ensure!(slot.is_active(), "slot is not active");
 
         let offset = slot.offset as usize;
-        Ok(&self.data[offset..offset + slot.size as usize])
+        self.data
+            .get(offset..offset + slot.size as usize)
+            .ok_or_else(|| eyre::eyre!("slot data range exceeds page bounds"))
     }
 
     pub fn mark_deleted(&mut self, slot_index: u16) -> Result<()> {
